@@ -2,7 +2,8 @@
 
 Specification: spec/DataDef.tla (statement kinds x element types table: DC.B/W/L/Q/C/S/D/X, DB/DW/DD/DQ/DT, BYT/FCB,
 ADR/FDB, FCC, BYTE/WORD/LONG of the 16-bit-granular TMS320C2x; integer range rule -2^(8w-1)..2^(8w)-1; byte order;
-strings through the CHARSET map, multi-character constants; nested DUP, [n] repeat, `?` reservations; PADDING;
+strings through the CHARSET table (a function value changed by CHARSET statements: range, single entry, string, reset;
+assignments, never compositions), multi-character constants; nested DUP, [n] repeat, `?` reservations; PADDING;
 BIGENDIAN), spec/IEEE.tla (half/single/double/extended encoders in integer arithmetic: round-to-nearest-even,
 subnormals, overflow), spec/Limb64.tla.
 
@@ -13,7 +14,9 @@ subnormals, overflow), spec/Limb64.tla.
                 normal range.  IEEE_Dev.cfg (expected to fail) lets TLC exhibit a witness of that defect.
     DataDef_MC: on every generated case: range rule = the documented interval; bytes decode back to value mod 2^(8w);
                 little endian = reversed big endian; length = elements x width through DUP / [n]; reservation emits
-                nothing; PADDING pads exactly multi-byte objects at odd addresses; data mixed with `?` is an error.
+                nothing; PADDING pads exactly multi-byte objects at odd addresses; data mixed with `?` is an error; the lazy
+                table lookup = the table function; every copy of a repeated string is the string translated exactly once;
+                a statement assembled on both sides of CHARSET statements shows both tables.
 (G) every DataDef_MC case (statement x argument list x modes, expected layout printed by TLC) is rendered for
     68000 and 6809 (DC.x, big endian, PADDING on/off, odd/even start; code kept in words resp. bytes), z80 and 8051 (Dx, BIGENDIAN off/on), 6809 (FCB/FDB/FCC),
     6502 (BYT/ADR) and 320C25 (BYTE/WORD/LONG, 16-bit granular), one `org` slot per case followed by a marker byte; the
@@ -40,6 +43,12 @@ Mutations of the real code tried (fresh copy of /repo, VERIF_REPO, ./check C09 -
     * ieeefloat.c Double_2_ieee4: lowest mantissa bit cleared           -> caught (174)
     * intpseudo.c Put32I_To_8: 16-bit halves swapped                    -> caught (435)
     With all proposed fixes applied to a copy: 0 violations, no KNOWN-FINDING line, 201/201 golden tests pass.
+    * (after an independently seeded miss) motpseudo.c DecodeFCC resp. DecodeMotoBYT: TranslateString moved inside the
+      repeat loop, so that copy k of `[n]"..."` is translated k times -> invisible with the maps of the first version
+      (their images did not overlap their domains); with the string x repeat 1..3 x CHARSET sweep (maps: identity, A..Y -> B..Z,
+      a <-> b, a..c -> X, set+reset, the same range twice, reset then swap; CHARSET statements between two copies of a
+      statement; every case sets its map and resets it with a plain CHARSET): caught, 96 resp. 192 violations
+      (`fcc [3]'Ab'` under A..Y -> B..Z lays down Bb Cb Db).
 """
 import os
 
@@ -50,7 +59,7 @@ from vlib.common import CheckError, Phase, log, pmap, rng
 from vlib.report import Report
 
 PID = "C09"
-STRIDE = 128
+STRIDE = 512
 MARK = 0xA5
 
 MNEMO = {"DCB": "dc.b", "DCW": "dc.w", "DCL": "dc.l", "DCQ": "dc.q", "DCC": "dc.c", "DCS": "dc.s", "DCD": "dc.d",
@@ -69,13 +78,7 @@ class Target:
         self.lit = er.Dialect(cpu, cpu, hexfmt, big, "", "", "")
 
     def header(self):
-        lines = ["\tcpu\t%s" % self.cpu] + ["\t" + x for x in self.extra]
-        cs = self.md["cs"]
-        if cs == "up":
-            lines.append("\tcharset\t'a','z','A'")
-        elif cs == "hi":
-            lines.append("\tcharset\t'a',200")
-        return lines
+        return ["\tcpu\t%s" % self.cpu] + ["\t" + x for x in self.extra]
 
     def slot_of(self, n, it):
         # byte address of the statement's location counter (word address x gran for the 16-bit target)
@@ -84,13 +87,20 @@ class Target:
     def render(self, items):
         lines = self.header()
         for n, it in enumerate(items):
+            md = it.case["md"]
             it.first = len(lines) + 1
             it.slot = self.slot_of(n, it)
             org = it.slot // self.gran if self.gran > 1 else it.slot
             lines.append("\torg\t%d" % org)
+            lines += charset_lines(md["cs"])                 # the CHARSET statements in force for this case
             lines.append("\t%s\t%s" % (it.stmt, it.expr))
+            if md.get("cs2"):
+                lines += charset_lines(md["cs2"])            # changed between two copies of the statement
+                lines.append("\t%s\t%s" % (it.stmt, it.expr))
             it.line = len(lines)
             lines.append("\t%s" % self.marker)
+            if md["cs"] or md.get("cs2"):
+                lines.append("\tcharset")                    # back to the identity: the next case must not see the map
         return "\n".join(lines) + "\n"
 
 
@@ -98,15 +108,15 @@ def target_for(case, r):
     fam, md, stmt = case["fam"], case["md"], case["stmt"]
     if fam == "moto":
         if md.get("lg", 2) == 1:
-            return ("6809dc", "pad%d" % md["padding"], md["cs"])      # DC.x on a 68xx: code kept in bytes
-        return ("68000", "pad%d" % md["padding"], md["cs"])
+            return ("6809dc", "pad%d" % md["padding"], "")      # DC.x on a 68xx: code kept in bytes
+        return ("68000", "pad%d" % md["padding"], "")
     if fam == "intel":
         if md["big"]:
-            return ("8051", "big", md["cs"])
-        return ("z80" if (md["pcodd"] or md["cs"] != "id") else "8051", "little", md["cs"])
+            return ("8051", "big", "")
+        return ("z80" if (md["pcodd"] or md["cs"]) else "8051", "little", "")
     if fam == "m68":
-        return ("6809" if stmt in ("FCB", "FDB", "FCC") else "6502", "", md["cs"])
-    return ("320c25", "", md["cs"])
+        return ("6809" if stmt in ("FCB", "FDB", "FCC") else "6502", "", "")
+    return ("320c25", "", "")
 
 
 def make_target(key, md):
@@ -124,6 +134,24 @@ def make_target(key, md):
     if cpu == "6502":
         return Target(cpu, "moto", False, 1, "byt\t$A5", md)
     return Target(cpu, "intel", False, 2, "word\t0A5A5h", md)
+
+
+def charset_lines(ops):
+    """CHARSET statements of a map description; numeric arguments, so that an already active map cannot touch them"""
+    out = []
+    for op in ops:
+        k = op["k"]
+        if k == "range":
+            out.append("\tcharset\t%d,%d,%d" % (op["a"], op["b"], op["c"]))
+        elif k == "one":
+            out.append("\tcharset\t%d,%d" % (op["a"], op["c"]))
+        elif k == "str":
+            out.append("\tcharset\t%d,%s" % (op["a"], er.spell_string(op["cs"])))
+        elif k == "reset":
+            out.append("\tcharset")
+        else:
+            raise ValueError(k)
+    return out
 
 
 POW2 = [1 << k for k in range(0, 64)]
@@ -208,7 +236,7 @@ def judge_data_batch(rep, bld, tgt, items, depth=0):
         judge_data_batch(rep, bld, tgt, items[mid:], depth + 1)
         return
     errs = er.error_lines(res)
-    bad = [it for it in items if any(l in errs for l in range(it.first, it.line + 2))]
+    bad = [it for it in items if any(l in errs for l in range(it.first, it.line + 3))]
     if bad:
         import re
         txt = res.out + res.err
@@ -264,7 +292,7 @@ def replay_cases(rep, bld, cases, tier):
             k = c["o"]["k"]
             by["data" if k in ("data", "reserve") else k].append(it)
         for kind, items in by.items():
-            for ch in base.chunks(items, 150):
+            for ch in base.chunks(items, 100):
                 work.append((kind, tgt, ch))
 
     def do(w):
